@@ -48,5 +48,6 @@ package cleaner
 //@ func NewChainedCleaner$1
 //@   props C12
 //@   at call dyn#1 ghostset cleanfailed[nil] = ite(r0 != nil, 1, cleanfailed(nil))
+//@   loop 0 exhaustive
 //@   loop 0 invariant cleanfailed(nil) == 1 ==> chainedErr != nil
 //@   ensures a-failed-cleaner-fails-the-chain: cleanfailed(nil) == 1 ==> r0 != nil
